@@ -48,6 +48,10 @@ type SUT struct {
 	Predicting bool
 	pending    []Problem
 
+	// LedgerTipBefore: tree index of the ledger's tip when the last Receive (or faulted receive)
+	// started (-1 unknown)
+	LedgerTipBefore int
+
 	poolBeforePlay map[string]bool
 	junk           [][]byte // blocks stored by the ledger that the state machine must refuse
 }
@@ -144,6 +148,9 @@ func (s *SUT) Confirm(i int) Op {
 // the state to the ledger tip). The engine ignores blocks below the height it has already
 // synchronised to: that is its policy, not a failure.
 func (s *SUT) Receive(i int) Op {
+	// the engine first walks the state to the ledger's CURRENT tip when the two differ, then
+	// stores the block and walks to the new tip: blocks may be applied and undone inside one call
+	s.LedgerTipBefore = s.LedgerTip()
 	err := s.N.ProcBlock(s.T.Blocks[i].Block)
 	res := "ok"
 	switch {
